@@ -71,6 +71,13 @@ def iteration_paths(prog, fn):
                     if s is not None and taken[0] == 'c':
                         info['matched'].append((s, pnames.get(taken[1], taken[1])))
                         continue
+                if v[0] == 'app' and v[1].split('::')[-1] in ('eq', 'ne') and len(v[2]) == 2:
+                    # `second == Some(first)` held (or `!=` failed): the look-ahead slot compared with a Some value holds a token
+                    held = (taken != C(0)) if v[1].split('::')[-1] == 'eq' else (taken == C(0))
+                    for x, y in ((v[2][0], v[2][1]), (v[2][1], v[2][0])):
+                        k = _get_term(x)
+                        if k is not None and held and y[0] == 'adt' and y[3] == 'Some':
+                            info['proven_len'] = max(info['proven_len'], k + 1)
                 info['tests'].append((fmt(v), fmt(taken)))
             elif e[0].endswith('Extend::extend') or e[0].endswith('Extend<T>>::extend'):
                 info['emitted'] = e[2][1] if len(e[2]) > 1 else None
